@@ -749,7 +749,12 @@ impl World {
             for c in m.all_bytes(5) {
                 funds.push(pb_coin(&c)?);
             }
-            let target = m.str(2);
+            // bech32 is case-insensitive as long as one case is used throughout: an all-upper-case spelling
+            // names the same account (the SDK decodes it to the same bytes)
+            let mut target = m.str(2);
+            if !target.chars().any(|c| c.is_ascii_lowercase()) {
+                target = target.to_lowercase();
+            }
             self.exec_contract(&target, contract, &funds, &m.bytes(3))?;
             return Ok(None);
         }
@@ -1050,6 +1055,7 @@ impl World {
             return None;
         }
         let snap = self.begin();
+        let mut dropped: Option<String> = None;
         let r = (|| {
             self.refund(&p)?;
             self.st.packets[pkt].state = PState::Refunded;
@@ -1057,12 +1063,33 @@ impl World {
             if let Some(cb) = &p.callback {
                 if self.which_of(cb) == Some(Which::Staking) {
                     let msg = serde_json::json!({"ibc_lifecycle_complete": {"ibc_timeout": {"channel": p.channel, "sequence": p.seq}}});
-                    return self.sudo_staking(&msg.to_string(), with_tx);
+                    // Osmosis x/ibc-hooks, OnTimeoutPacketOverride: the refund has happened; the contract is
+                    // called in a cached context; if it errors, the error is only emitted as an event
+                    // ("retrying this will not help"), the callback registration is deleted and the relayer's
+                    // transaction succeeds. (An erroring *acknowledgement* callback, by contrast, fails the
+                    // transaction and can be relayed again: see relay_ack.)
+                    let inner = self.st.clone();
+                    return match self.sudo_staking(&msg.to_string(), with_tx) {
+                        Ok(a) => Ok(a),
+                        // running out of gas is not an error return: it aborts the relayer's whole transaction
+                        Err(e) if e.contains("out of gas (injected)") => Err(e),
+                        Err(e) => {
+                            let log = std::mem::take(&mut self.st.log);
+                            self.st = inner;
+                            self.st.log = log;
+                            dropped = Some(e);
+                            Ok(vec![])
+                        }
+                    };
                 }
             }
             Ok(vec![])
         })();
-        Some(self.finish(snap, r))
+        let mut res = self.finish(snap, r);
+        if let Some(e) = dropped {
+            res.attrs.push(("ibc-timeout-callback-error".to_string(), e));
+        }
+        Some(res)
     }
 
     fn refund(&mut self, p: &Packet) -> Result<(), String> {
